@@ -62,7 +62,19 @@ _resp = st.tuples(st.just("resp"), _host, _port, st.integers(0, len(PATHS) - 1),
 _again = st.tuples(st.just("again"), st.integers(0, 30), st.sampled_from([0, 1, 1, 3, 3, 4, 5]))
 _req = st.tuples(st.just("req"), _host, _port, st.integers(0, len(PATHS) - 1), st.booleans())
 _flt = st.tuples(st.just("flt"), st.sampled_from([0, 0, 1, 2, 3]))
-_op = st.integers(0, 19).flatmap(lambda i: _resp if i < 6 else _again if i < 8 else _req if i < 19 else _flt)
+
+
+def _weighted(*pairs):
+    """one_of with integer weights (one_of drops repeated strategy *objects*, so every copy is a distinct .map(); this is
+    much cheaper to draw from than integers().flatmap())"""
+    out = []
+    for strat, w in pairs:
+        # wrapped in a 1-tuple: a mapped one_of would be flattened into its branches and change the weights
+        out.extend(st.tuples(strat).map(lambda t: t[0]) for _ in range(w))
+    return st.one_of(out)
+
+
+_op = _weighted((_resp, 6), (_again, 2), (_req, 11), (_flt, 1))
 
 
 def strategy(ctx):
